@@ -255,6 +255,42 @@ def default_box(src: str):
     raise Unsupported("no minimize(...) call in LocalScipyMinimizer.__call__")
 
 
+def global_box(src: str, lo, hi) -> bool:
+    """GlobalScipyMinimizer.__call__: `box = [bounds.get(name, (lo, hi)) for name in p0]` with the local minimiser's default
+    box, handed to differential_evolution / shgo / dual_annealing / direct -> True; the `bounds` dict handed on as it
+    is (pinned tree: those four methods raise) -> False; anything else refuses"""
+    tree = ast.parse(src)
+    cls = next((n for n in tree.body if isinstance(n, ast.ClassDef) and n.name == "GlobalScipyMinimizer"), None)
+    call = None if cls is None else next((n for n in cls.body if isinstance(n, ast.FunctionDef) and n.name == "__call__"), None)
+    if call is None:
+        raise Unsupported("GlobalScipyMinimizer.__call__ not found")
+    passed = {}
+    for node in ast.walk(call):
+        if isinstance(node, ast.Call) and ast.unparse(node.func) in ("differential_evolution", "shgo", "dual_annealing", "direct"):
+            if len(node.args) != 2 or node.keywords or ast.unparse(node.args[0]) != "res_fn":
+                raise Unsupported("global call " + ast.unparse(node))
+            passed[ast.unparse(node.func)] = ast.unparse(node.args[1])
+    if len(passed) != 4:
+        raise Unsupported(f"global methods found: {sorted(passed)}")
+    if set(passed.values()) == {"bounds"}:
+        return False
+    if set(passed.values()) != {"box"}:
+        raise Unsupported(f"global methods get {passed}")
+    for st in call.body:
+        if isinstance(st, ast.Assign) and ast.unparse(st.targets[0]) == "box":
+            b = st.value
+            if (isinstance(b, ast.ListComp) and len(b.generators) == 1 and not b.generators[0].ifs
+                    and ast.unparse(b.generators[0].iter) == "p0" and isinstance(b.generators[0].target, ast.Name)
+                    and isinstance(b.elt, ast.Call) and ast.unparse(b.elt.func) == "bounds.get" and len(b.elt.args) == 2
+                    and ast.unparse(b.elt.args[0]) == b.generators[0].target.id):
+                glo, ghi = ast.literal_eval(b.elt.args[1])
+                if (Fraction(repr(float(glo))), Fraction(repr(float(ghi)))) != (lo, hi):
+                    raise Unsupported("the global minimiser's default box differs from the local one's")
+                return True
+            raise Unsupported("box = " + ast.unparse(b))
+    raise Unsupported("no `box = ...` in GlobalScipyMinimizer.__call__")
+
+
 def render(repo: Path) -> str:
     losses_src = (repo / "src/mxlpy/fit/losses.py").read_text()
     tree = ast.parse(losses_src)
@@ -268,6 +304,7 @@ def render(repo: Path) -> str:
     guard = check_settings((repo / "src/mxlpy/fit/abstract.py").read_text())
     defaults = check_routines((repo / "src/mxlpy/fit/routines.py").read_text())
     lo, hi = default_box((repo / "src/mxlpy/minimizers/_scipy.py").read_text())
+    gbox = global_box((repo / "src/mxlpy/minimizers/_scipy.py").read_text(), lo, hi)
     shipped = ", ".join(f'"{n}"' for n in sorted(names))
     rat_ok = [n for n in names if set(needs[n]) <= {"HasAbs"}]
     rat_cases = "\n".join(f'  | "{n}" => some ({n} d p)' for n in sorted(rat_ok))
@@ -293,6 +330,8 @@ def render(repo: Path) -> str:
         f"def fitSetsBest : Bool := {'true' if defaults['sets_best'] else 'false'}\n\n"
         "/-- the box `LocalScipyMinimizer` applies to a parameter without explicit bounds -/\n"
         f"def defaultBox : Rat × Rat := (({lo.numerator} : Rat) / {lo.denominator}, ({hi.numerator} : Rat) / {hi.denominator})\n\n"
+        "/-- GlobalScipyMinimizer hands scipy one box per entry of p0 (the caller's, or the default box) -/\n"
+        f"def globalUsesBox : Bool := {'true' if gbox else 'false'}\n\n"
         "/-- the losses that need no sqrt/log, evaluated at Rat by the driver -/\n"
         "def evalRat (name : String) (d p : List Rat) : Option Rat :=\n  match name with\n"
         + rat_cases + "\n  | _ => none\n\n"
@@ -320,6 +359,7 @@ def generate(repo: Path, outdir: Path) -> None:
                               "def defaultBox : Rat × Rat := (0, 0)\n"
                               "def scaleGuard : Bool := false\n"
                               "def fitSetsBest : Bool := false\n"
+                              "def globalUsesBox : Bool := false\n"
                               "def settingsLoss {α : Type} [Sub α] [Div α] [LT α] [DecidableLT α] [NatCast α]\n"
                               "    (lossFn : List α → List α → α) (standardScale : Bool) (mean scale : α) (data prediction : List α) : α :=\n"
                               "  scaledLoss false lossFn standardScale mean scale data prediction\n"
